@@ -94,7 +94,7 @@ CHECKS = {
         "(1e-9). Objects protected inside a context are re-tagged, not transformed (by design) and are excluded from the restoration "
         "claim. Evolutions do not tag themselves on creation and are created outside contexts only; operator-form tensors are covered "
         "by the action laws and by C07.",
-   design="7/C04", technique="Coq proof (state-machine invariant by induction over program trees; ring algebra for the actions) + in-Coq differential correspondence"),
+   design="7/C04", technique="Coq proof (state-machine invariant by induction over program trees; ring algebra for the actions) + loop nests of the tensor basis change regenerated from the source by a translator with machine-checked equivalence lemmas + in-Coq differential correspondence"),
  "C01": dict(
    text="Proved in Coq over any commutative *-ring, for every dimension, every number of bath components and (index by index) every "
         "time index: the Redfield assembly loop is traceless with NO hypothesis on the operators handed to it; with K_m real and "
